@@ -556,11 +556,23 @@ func runC16(c *Check) {
 				// namespace argument, if the method has one, is api.Namespace
 				sig := cfn.Signature
 				for i := 0; i < sig.Params().Len(); i++ {
+					isNS := false
 					if pt := sig.Params().At(i); pt.Type().String() == "[]byte" && (m != "SubmitWithOptions" || i == 3) && (pt.Name() == "_" || pt.Name() == "ns" || pt.Name() == "namespace") {
+						isNS = true
 						a := t.Args[1+i]
 						if !(a.Op == "field" && a.Name == "Namespace") {
 							okC = false
 							whyC = "the namespace passed is not the configured one: " + trunc(a.String(), 60)
+						}
+					}
+					// every other argument is the caller's own, unmodified (the blob list of
+					// SubmitWithOptions is the filtered prefix, C16-R3): ids de-duplicated, sorted or
+					// otherwise rewritten on the way make the answer differ from the same DA's in-process
+					if !isNS && !(m == "SubmitWithOptions" && i == 1) && 1+i < len(t.Args) && 1+i < len(cfn.Params) {
+						a := t.Args[1+i].unconv()
+						if !(a.Op == "param" && a.V == ssa.Value(cfn.Params[1+i])) {
+							okC = false
+							whyC = "argument " + sig.Params().At(i).Name() + " of the RPC is not the caller's own value but " + trunc(a.String(), 80) + ": the proxied call no longer asks the DA layer what the direct call asks (e.g. one blob per id, in the order of the ids)"
 						}
 					}
 				}
